@@ -189,6 +189,10 @@ func (l *lexer) scanEscape(quote rune) rune {
 	case 'U':
 		ch = l.scanDigits(l.next(), 16, 8)
 	default:
+		if ch == '\n' {
+			// Report the line the backslash is on.
+			l.backup()
+		}
 		l.error("invalid char escape")
 	}
 	return ch
